@@ -10,6 +10,7 @@ import (
 func init() {
 	vRegister("H20_refs", H20_refs)
 	vRegister("H20_openfail", H20_openfail)
+	vRegister("H20_lockset", H20_lockset)
 	vRegister("H10_seq", H10_seq)
 }
 
@@ -64,6 +65,66 @@ func H20_refs() {
 	vAssert(vFSOpenHandles() == 0 && vFSLiveMappings() == 0, "tail-released")
 	// closing an in-memory segment is harmless
 	vAssert(sb.Close() == nil, "base-close")
+}
+
+// H20_lockset (reduction R1 for the schedule quantifier): the reference count and the release are only ever
+// touched with Segment.m held, on every path of AddRef / DecRef / Close; then concurrent holders are equivalent
+// to one of the sequential orders H20_refs explores. Natively (replay of a lockset counterexample) the same
+// harness is a stress run of concurrent holders, which must leave the segment live and release it exactly once.
+func H20_lockset() {
+	sb, _, sp := vSmallSegment()
+	path := vP("k.zap")
+	vAssert(sb.Persist(path) == nil, "persist")
+	var z ZapPlugin
+	sI, err := z.Open(path)
+	vAssert(err == nil, "open")
+	s := sI.(*Segment)
+	if vSymbolic() {
+		vGuard(&s.refs, &s.m)
+		refs := 1
+		for i := 0; i < 4 && refs > 0; i++ {
+			switch vChoice(fmt.Sprint("op", i), 3) {
+			case 0:
+				s.AddRef()
+				refs++
+			case 1:
+				vAssert(s.DecRef() == nil, "decref")
+				refs--
+			case 2:
+				vAssert(s.Close() == nil, "close")
+				refs--
+			}
+		}
+		return
+	}
+	// native stress: holders take and drop references concurrently while the opener keeps its own
+	const workers, rounds = 8, 20000
+	errs := make(chan error, workers)
+	for w := 0; w < workers; w++ {
+		go func(w int) {
+			for i := 0; i < rounds; i++ {
+				s.AddRef()
+				var err error
+				if (i+w)%2 == 0 {
+					err = s.DecRef()
+				} else {
+					err = s.Close()
+				}
+				if err != nil {
+					errs <- err
+					return
+				}
+			}
+			errs <- nil
+		}(w)
+	}
+	for w := 0; w < workers; w++ {
+		vAssert(<-errs == nil, "stress-release-error")
+	}
+	vAssert(vFSOpenHandles() == 1 && vFSLiveMappings() >= 1, "stress-still-live")
+	sCheckStored(s, sp, "stress-read-")
+	vAssert(s.Close() == nil, "stress-final-close")
+	vAssert(vFSOpenHandles() == 0 && vFSLiveMappings() == 0, "stress-released")
 }
 
 func mustDict(s segment.Segment, f string) segment.TermDictionary {
